@@ -55,19 +55,24 @@ func (dp *DataProcessor) Process() {
 
 	// Main processing loop
 	for {
-		// Safely access dataChan using read lock
+		verifhook.Point("proc.chan_read")
+		// Hold the read lock while receiving: the channel migration performed by
+		// expandDataChannel takes the write lock, so it can never drain the old
+		// channel concurrently with this receive (which let a later row overtake an
+		// earlier one of the same producer). The lock is released before the row
+		// is processed, so sinks and filters never run under it.
 		dp.stream.dataChanMux.RLock()
 		currentDataChan := dp.stream.dataChan
-		dp.stream.dataChanMux.RUnlock()
-		verifhook.Point("proc.chan_read")
 
 		// Check if dataChan is nil (stream has been stopped)
 		if currentDataChan == nil {
+			dp.stream.dataChanMux.RUnlock()
 			return
 		}
 
 		select {
 		case data, ok := <-currentDataChan:
+			dp.stream.dataChanMux.RUnlock()
 			if !ok {
 				// Channel is closed
 				return
@@ -75,9 +80,11 @@ func (dp *DataProcessor) Process() {
 			dp.processItem(data)
 		case <-dp.stream.done:
 			// Received close signal
+			dp.stream.dataChanMux.RUnlock()
 			return
 		case <-ticker.C:
 			// Timer triggered, do nothing, just prevent CPU spinning
+			dp.stream.dataChanMux.RUnlock()
 		}
 	}
 }
